@@ -35,7 +35,7 @@ let model line =
            Buffer.add_string b (Printf.sprintf " %d:%s" (if ret then 1 else 0) (hex_of_bytes (render toks)));
            Some t')) (Some t) reqs in
   Buffer.contents b
-let oracle line =
+let oracle walk line =
   match String.split_on_char '|' line with
   | [c; o] ->
     let (t, reqs) = parse_case (split_ws c) in
@@ -47,13 +47,14 @@ let oracle line =
            match split_on ':' ob with
            | [r; h] -> ((q, r <> "0"), bytes_of_hex h)
            | _ -> failwith "obs") reqs obs in
-       (match oracle_walk O v0 items with
+       (match walk O v0 items with
         | VOk n -> Printf.sprintf "OK %d" (int_of_nat n)
         | VOutOfRange i -> Printf.sprintf "OK range@%d" (int_of_nat i)
         | VBadAt i -> Printf.sprintf "BAD @%d" (int_of_nat i))
      | _ -> "BAD obs")
   | _ -> "BAD line"
 let () =
-  let f = if Array.length Sys.argv > 1 && Sys.argv.(1) = "oracle" then oracle else model in
-  iter_lines (fun l -> print_endline (try f l with Failure m -> (if f == oracle then "BAD ERR " else "ERR ") ^ m
+  let mode = if Array.length Sys.argv > 1 then Sys.argv.(1) else "model" in
+  let f = match mode with "oracle" -> oracle oracle_walk | "oracle-excl" -> oracle oracle_walk_excl | _ -> model in
+  iter_lines (fun l -> print_endline (try f l with Failure m -> (if mode <> "model" then "BAD ERR " else "ERR ") ^ m
                                                  | Invalid_argument m -> "BAD ERR " ^ m))
